@@ -20,7 +20,7 @@ for d in sorted((ROOT / "seeded").iterdir()):
     files = sorted(set(re.findall(r"^\+\+\+ b/src/zeroconf/(\S+)", patch, re.M)))
     chk = j.get("check", {})
     vl = chk.get("violation_line", "")
-    how = "missed" if not j.get("detected") else ("no-failing-input-found" if "no-failing-input-found" in vl else "concrete replay")
+    how = "stale" if j.get("stale") else "missed" if not j.get("detected") else ("no-failing-input-found" if "no-failing-input-found" in vl else "concrete replay")
     sig = (chk.get("replay_summary") or "").split("|")[0].strip()
     rows.append((j.get("name", d.name), ", ".join(files), title[:110], how, sig[:60]))
 print("| seed | file(s) | change | result | signature / stage |")
@@ -28,5 +28,6 @@ print("|---|---|---|---|---|")
 for r in rows:
     print("| %s | %s | %s | %s | `%s` |" % r)
 print()
-tot = len(rows); det = sum(1 for r in rows if r[3] != "missed"); conc = sum(1 for r in rows if r[3] == "concrete replay")
-print("%d seeds: %d detected (%d with a concrete replay, %d as no-failing-input-found), %d missed" % (tot, det, conc, det - conc, tot - det))
+stale = sum(1 for r in rows if r[3] == "stale")
+tot = len(rows) - stale; det = sum(1 for r in rows if r[3] not in ("missed", "stale")); conc = sum(1 for r in rows if r[3] == "concrete replay")
+print("%d seeds: %d detected (%d with a concrete replay, %d as no-failing-input-found), %d missed%s" % (tot, det, conc, det - conc, tot - det, "; %d more stale (the demo no longer demonstrates on the current tree)" % stale if stale else ""))
